@@ -167,7 +167,7 @@ SPECIAL = {"c17l": SPECIAL_C17L, "iofault": _iofault_tasks, "c06h": _c06h_tasks,
 
 C08_SCENARIOS = ["dict_default", "dict_default_fresh", "dict_default_shorter", "dict_write_concern_nothreads",
                  "attrdict_default", "dict_plain_nothreads", "dict_threads_enabled_after_construction",
-                 "dict_threads_disabled_after_construction", "list_two_saves", "buffered_backend", "buffered_objects",
+                 "dict_threads_disabled_after_construction", "dict_same_length", "dict_same_length_write_concern_nothreads", "list_two_saves", "buffered_backend", "buffered_objects",
                  "buffered_forced", "membuffered_backend", "membuffered_forced", "membuffered_objects"]
 
 
@@ -304,7 +304,7 @@ PROPS["C10"] = dict(suites=[dict(unit="conc", special="c10")],
 
 PROPS["C08"] = dict(
     suites=[dict(unit="c08", special="c08")],
-    rule="13 save scenarios (plain save with threading on/off and write_concern, dict/list/attr, two consecutive saves, "
+    rule="15 save scenarios (plain save with threading on/off and write_concern, dict/list/attr, two consecutive saves, "
          "multi-file flushes of both buffer strategies at backend-wide exit, per-object exit and capacity-forced): (i) the traced "
          "sequence of mutating file operations (process-wide hooks on open/io.open/os.open/os.write/os.replace/os.rename/...) must "
          "equal the model's saveSteps for the same targets and lengths, serialisation first, temp file in the target's directory and "
